@@ -180,6 +180,37 @@ def replay_witnesses(hbin, wd, prop):
     return notes
 
 
+def replay_regressions(hbin, wd, prop):
+    """Runs the regression corpus (minimised inputs of repaired defects) that applies to prop; returns result rows."""
+    from vcheck import VERIF
+    idx_path = os.path.join(VERIF, "corpus", "regress", "INDEX.json")
+    rows = []
+    if not os.path.exists(idx_path):
+        return rows
+    for name, meta in sorted(json.load(open(idx_path)).items()):
+        if prop not in meta.get("properties", []):
+            continue
+        out = os.path.join(wd, "report_regress_%s.jsonl" % name.replace(".json", ""))
+        if os.path.exists(out):
+            os.remove(out)
+        p = run([hbin, "diff", "--mode", meta.get("mode", "ref"), "--replay", os.path.join(VERIF, "corpus", "regress", name), "--out", out],
+                timeout=300, check=False)
+        got = False
+        try:
+            for line in open(out):
+                r = json.loads(line)
+                if r.get("kind") == "done":
+                    r["profile"] = "regress"
+                    r["case_file"] = os.path.join(VERIF, "corpus", "regress", name)
+                    rows.append(r)
+                    got = True
+        except (OSError, ValueError):
+            pass
+        if not got:
+            raise CheckError("regression case %s produced no result (exit %s)" % (name, p.returncode))
+    return rows
+
+
 ORACLE_TEXT = {
     "ref": "engine result == reference engine result (type, label sets, timestamps, values within 1e-9 relative, error parity)",
     "instants": "range result at t == instant query at t for every grid t, no off-grid points, sub-window == restriction",
@@ -218,7 +249,10 @@ def ref_family_check(prop, tier, seed, plan_quick, plan_thorough, corr=None, des
     if corr is not None:
         corr_info, corr_bad = corr(hbin, wd, tier, seed)
 
+    regress = replay_regressions(hbin, wd, prop)
     res, crashes, stats = run_ref_sweeps(sweep_bin, wd, seed, plan, extra_env=sweep_env)
+    res = regress + res
+    stats["regression-corpus"] = {"cases": len(regress), "failing": sum(1 for r in regress if r.get("fail"))}
     fails = [r for r in res if r.get("fail")]
     hits, n_new, skipped = classify_failures(prop, v, fails, crashes)
     for note in replay_witnesses(hbin, wd, prop):
